@@ -131,41 +131,48 @@ func waitReleased() {
 
 // token table: gives every pooled object its own word for the Put -> Get happens-before edge that a real
 // sync.Pool provides (race.ReleaseMerge / race.Acquire). Open addressing over plain arrays, norace, no Go map.
-const tokSize = 1 << 14
+const tokSize = 1 << 21
 
 var (
-	tokKeys [tokSize]uintptr
-	tokVals [tokSize]uint32
-	tokUsed int
+	tokKeys  [tokSize]uintptr
+	tokVals  [tokSize]uint32
+	tokSlots = make([]int32, 0, tokSize/2) // occupied slots of this run (cleared by resetTokens); never grows
+	// TokOverflow counts Put/Get pairs that had to share the overflow token (reported as harness trouble: a shared token
+	// would hand the getter the clock of whoever released last, i.e. lose happens-before edges and fake data races)
+	TokOverflow uint64
 )
 
+// tokFor returns the token word of the object at address a (one word per object: exactly sync.Pool's Put->Get edge).
+// ok is false when the table is full.
+//
 //go:norace
-func tokFor(a uintptr) *uint32 {
+func tokFor(a uintptr) (tok *uint32, ok bool) {
 	i := int((a>>3)*2654435761) & (tokSize - 1)
-	for n := 0; n < tokSize; n++ {
+	for n := 0; n < tokSize/2; n++ {
 		k := tokKeys[i]
 		if k == a {
-			return &tokVals[i]
+			return &tokVals[i], true
 		}
 		if k == 0 {
+			if len(tokSlots) == cap(tokSlots) {
+				break // half full: treat as full (probe sequences stay short, the slot list never reallocates)
+			}
 			tokKeys[i] = a
-			tokUsed++
-			return &tokVals[i]
+			tokSlots = append(tokSlots, int32(i))
+			return &tokVals[i], true
 		}
 		i = (i + 1) & (tokSize - 1)
 	}
-	return &tokVals[0]
+	TokOverflow++
+	return &tokVals[tokSize-1], false
 }
 
 //go:norace
 func resetTokens() {
-	if tokUsed == 0 {
-		return
-	}
-	for i := range tokKeys {
+	for _, i := range tokSlots {
 		tokKeys[i] = 0
 	}
-	tokUsed = 0
+	tokSlots = tokSlots[:0]
 }
 
 // yield hands the baton to the controller and waits to get it back.
@@ -192,7 +199,11 @@ func (t *Task) poolGet(p *sync.Pool) any {
 		return x
 	}
 	if a := ptrOf(x); a != 0 {
-		atomic.LoadUint32(tokFor(a)) // acquire: everything the putter did before its Put happens-before us
+		if tok, ok := tokFor(a); ok {
+			atomic.LoadUint32(tok) // acquire: everything the putter did before its Put happens-before us
+		} else {
+			atomic.AddUint32(tok, 0) // table full: acquire on the shared word (see poolPut)
+		}
 	}
 	return x
 }
@@ -201,7 +212,13 @@ func (t *Task) poolGet(p *sync.Pool) any {
 func (t *Task) poolPut(p *sync.Pool, x any) {
 	if x != nil {
 		if a := ptrOf(x); a != 0 {
-			atomic.StoreUint32(tokFor(a), 1) // release
+			if tok, ok := tokFor(a); ok {
+				atomic.StoreUint32(tok, 1) // release
+			} else {
+				// table full: a read-modify-write on the shared word merges the clocks of all putters instead of keeping
+				// the last one only (more happens-before than sync.Pool gives: races may be missed, never invented)
+				atomic.AddUint32(tok, 1)
+			}
 		}
 	}
 	t.rpool, t.robj = p, x
